@@ -61,6 +61,12 @@ def c12_runs(tier, scale):
     return [("c12", [900 * scale, 3], None), ("c12", [600 * scale, 4], None)]
 
 
+def c20_runs(tier, scale):
+    if tier == "thorough":
+        return [("c20", [120 * scale, 6], None) for i in range(16)]
+    return [("c20", [25 * scale, 4], None), ("c20", [15 * scale, 4], None)]
+
+
 def c05_runs(tier, scale):
     th = 1 if tier == "thorough" else 0
     runs = [("c05", [lim, th], None) for lim in ([4096, 65536, 1 << 20] if tier == "quick" else [4096, 16384, 65536, 1 << 20, 16 << 20])]
@@ -291,6 +297,28 @@ PROPS = {
                 "harness's bit-serial CRC-64-AVRO, MD5 / SHA-256 = those digests of the same bytes (md-5, sha2 crates); second call identical; removing docs / aliases / defaults / other attributes "
                 "keeps the form",
         "trusted_base": TEXT_TB,
+        "assumptions": [],
+    },
+    "C20": {
+        "lean_modules": ["AvroProofs.C20"],
+        "theorems": ["Avro.C20.duplicate_input_names_rejected", "Avro.C20.one_schema_per_input", "Avro.C20.order_dependent_success",
+                     "Avro.C20.order_dependent_definition"],
+        "partial": [
+            {"theorem": "(not stated) the result is the same for every hash order / input order",
+             "excluded_by": "FALSE of the code: order_dependent_success and order_dependent_definition are kernel-checked witnesses on the parser model (a closed set that parses or "
+                            "fails depending on the hash order; a clash whose winner depends on it), reproduced on the crate over repeated runs (open findings). For clash-free sets "
+                            "without references to nested definitions the statement is not proved either: at run time the driver enumerates ALL hash orders (all permutations of the "
+                            "pending inputs) of the model for every generated set and every input order, and the check requires every outcome the crate produced to be one of them"},
+        ],
+        "harness": c20_runs,
+        "projection": "exact",
+        "nontrivial": lambda l: True,
+        "rule": "sets of 2..7 named schemas: chains, dags, cycles, independent types over three namespaces with full / relative / leading-dot spellings; plus dangling reference, duplicate input "
+                "name, nested definition clashing with an input, reference to a definition nested in another input, input whose type is a nested named type; x all permutations of the input "
+                "list (capped at 24) x repeated runs (4 / 6: fresh hash seeds) through parse_list, and parse_str_with_list with the first input as the main schema; rows: the set of observed "
+                "outcomes must be among the model's outcomes over all hash orders; oracle: same result for every ordering and run, success iff the set is closed and duplicate-free, values "
+                "written with the schemas of one ordering read back with those of another",
+        "trusted_base": TEXT_TB + ["the hash order of the pending inputs is an explicit argument of the model; the HashMap's iteration order is assumed to be SOME fixed order of the keys that removals do not disturb"],
         "assumptions": [],
     },
     "C05": {
